@@ -46,7 +46,7 @@ def lattice(tier):
         out.append(dict(stochastic=stochastic, delay=delay, safe=safe, volume=vol, dataframe=df, via=via, model=mname, n=n))
         if n == grids[0]:
             out.append(dict(stochastic=stochastic, delay=delay, safe=safe, volume=vol, dataframe=df, via=via, model=mname, n=n, second_call=True))
-            if mname in ('plain', 'rule') and vol in ('False', 'num'):
+            if mname in ('plain', 'rule', 'delayed') and vol in ('False', 'num'):
                 # the same values of the time grid in other array layouts; and a structural edit between two calls on the same Model
                 for gr in ('strided', 'column', 'readonly', 'fortran'):
                     out.append(dict(stochastic=stochastic, delay=delay, safe=safe, volume=vol, dataframe=df, via=via, model=mname, n=n, grid_repr=gr))
@@ -202,6 +202,26 @@ def run_one(c, opt):
         want = [x[s] for s in species]
         if any(abs(a - b) > 1e-9 for a, b in zip(data[0], want)):
             bad('first-row', 'first row %s is not the initial condition with rules applied %s (%s)' % (list(data[0]), want, species))
+    if gr and not opt.get('second_call') and not opt.get('edit_between'):
+        # a result labelled with these times: the same call on a fresh model with the same time values in a plain contiguous array and
+        # the same seed must report the same rows (a simulator that walks the grid's buffer ignoring strides samples other times)
+        m2 = to_model(sp)
+        kw2 = dict(kw, volume=make_volume(opt['volume'], m2), return_dataframe=False)
+        kw2.pop('Model', None); kw2.pop('Interface', None)
+        if opt['via'] == 'Model':
+            kw2['Model'] = m2
+        else:
+            kw2['Interface'] = SafeModelCSimInterface(m2) if opt['safe'] else ModelCSimInterface(m2)
+        br.py_seed_random(12345)
+        try:
+            data2 = np.asarray(py_simulate_model(np.array(req_times, dtype=float), **kw2).py_get_result(), dtype=float)
+        except BaseException as e:
+            data2 = None
+            bad('grid-layout', 'the call succeeds on the %s grid but fails on a contiguous copy of it: %s' % (gr, str(e)[:150]))
+        c.count('evaluations')
+        if data2 is not None and (data2.shape != data.shape or not np.allclose(data2, data, rtol=1e-9, atol=1e-12)):
+            bad('grid-layout', 'rows for the time values %s depend on the memory layout of the grid (%s): %s versus %s on a contiguous copy' % (
+                list(req_times), gr, data.tolist(), data2.tolist()))
     if volcol is not None and len(volcol) and np.any(volcol <= 0):
         bad('volume-column', 'non-positive volume reported: %s' % volcol)
     asked = {'num': 2.0, 'int2': 2.0, 'int3': 3.0, 'obj': 1.5}.get(opt['volume'])
